@@ -36,13 +36,21 @@ ASSUMPTIONS = ['the data pointer addresses out_data_bytes writable bytes and pcm
 TRUSTED = ['oracle contracts of OpusModel/EncSkel/Frame.lean (silk_Encode returns 0 and nBytes >= 0; ec_tell monotone with '
            'bit_logp(12)/bit_logp(1)/uint(256) costing at most 12/1/8 bits; 8*(offs+end_offs)+1 <= ec_tell; '
            'celt_encode_with_ec returns 0..nbCompressedBytes for >= 2 bytes and < 0 below; SILK keeps its internal rate inside '
-           'a packet) — assumed by the theorems, monitored by the tie on every recorded call',
+           'a packet; with VBR off the main celt_encode_with_ec call returns exactly nbCompressedBytes) — assumed by the '
+           'theorems, monitored by the tie on every recorded call',
+           'multistream theorems (ms_encode_ret_le_out, _alloc) are stated over property C10\'s model Opus.MsEncode (stream loop + '
+           'C07 repacketiser model, tied by C10\'s msenc suite) for EVERY per-stream encoder within EncContract (a successful call '
+           'returns a valid packet of the common duration in <= curr_max bytes) and EncLive (a call with a legal budget succeeds); '
+           'both are theorems for the encoder skeleton (ms_encode_ret_le_out_skel), i.e. rest on the oracle contracts above; for '
+           'OPUS_AUTO the composition msEncodeAlloc = entry test + C10 loop on msMaxBytesAlloc is not executed as a whole by the '
+           'driver: its clamp value and every per-stream curr_max are tied by suite op mscurr3, its loop by C10',
            'repacketiser contract functions of OpusModel/EncSkel/Repack.lean (return values and header bytes compared with the '
            'real opus_packet_pad / opus_repacketizer_cat / out_range_impl on every recorded call)']
 REQUIRED_THEOREMS = ['OpusProps.C05.' + t for t in (
     'cbrBytes_spec', 'ret_le_out', 'cbr_size_exact', 'bitrate_max_fills', 'too_small_clean', 'never_internal_error',
     'stOk_preserved', 'stOk_along_histories', 'encode_keeps_encInv', 'ms_encode_ret_le_out', 'cvbr_reservoir_bounded',
-    'cvbr_average_bound', 'ms_rate_floor', 'ms_rate_sum', 'ms_rate_no_overflow', 'ms_encode_ret_le_out_alloc')]
+    'cvbr_average_bound', 'ms_rate_floor', 'ms_rate_sum', 'ms_rate_no_overflow', 'ms_encode_ret_le_out_alloc',
+    'ms_encode_ret_le_out_skel')]
 UNPROVED = ['range lemmas "no 32-bit overflow" for the budget arithmetic (model uses unbounded Int; products stay below 2^31 for '
             'Fs <= 48000, bit-rate <= 1.5e6, out_data_bytes clamped to 1276 — covered by UBSan on explored inputs only)',
             'that the float-driven CVBR target makes the average APPROACH the requested rate (only the upper bound '
